@@ -611,6 +611,14 @@ func c60Prop(c c60Case, r *vp.Rec) error {
 	if g, w := c60Dump(got), c60Dump(want); g != w {
 		return fmt.Errorf("ParseMessage(Marshal(m)) != m\n got  %s\n want %s\n wire %s", c60Trunc(g), c60Trunc(w), c60Trunc(c60Hex(wire)))
 	}
+	// the caller's receive buffer is reused for the next packet: the parsed message
+	// must stay what it was
+	for i := range wire {
+		wire[i] ^= 0xa5
+	}
+	if g, w := c60Dump(got), c60Dump(want); g != w {
+		return fmt.Errorf("the message returned by ParseMessage changed when the caller overwrote its input buffer\n got  %s\n want %s", c60Trunc(g), c60Trunc(w))
+	}
 	if c.V6 {
 		if c.Psh {
 			r.Class("icmpv6+pseudo-header")
@@ -743,12 +751,20 @@ func c60HdrProp(c c60HdrCase, r *vp.Rec) error {
 	if c60HdrString(h) != want {
 		return fmt.Errorf("Header.Marshal modified the header")
 	}
-	got, err := ipv4.ParseHeader(append(b, c.Trailer...))
+	in := append(append([]byte{}, b...), c.Trailer...)
+	got, err := ipv4.ParseHeader(in)
 	if err != nil {
 		return fmt.Errorf("ParseHeader failed on Marshal output: %v (%s)", err, c60Hex(b))
 	}
 	if g := c60HdrString(got); g != want {
 		return fmt.Errorf("ParseHeader(Marshal(h)) != h\n got  %s\n want %s\n wire %s", g, want, c60Hex(b))
+	}
+	// the caller's receive buffer is reused for the next packet
+	for i := range in {
+		in[i] ^= 0xa5
+	}
+	if g := c60HdrString(got); g != want {
+		return fmt.Errorf("the header returned by ParseHeader changed when the caller overwrote its input buffer\n got  %s\n want %s\n wire %s", g, want, c60Hex(b))
 	}
 	if c.Reuse && len(c.PrevOptions)%4 == 0 && len(c.PrevOptions) <= 40 {
 		// the same bytes parsed into a Header value that held another header before
@@ -762,8 +778,12 @@ func c60HdrProp(c c60HdrCase, r *vp.Rec) error {
 		if err := hh.Parse(pb); err != nil {
 			return fmt.Errorf("Header.Parse failed on Marshal output: %v", err)
 		}
-		if err := hh.Parse(append(append([]byte{}, b...), c.Trailer...)); err != nil {
+		in2 := append(append([]byte{}, b...), c.Trailer...)
+		if err := hh.Parse(in2); err != nil {
 			return fmt.Errorf("Header.Parse (reused value) failed on Marshal output: %v (%s)", err, c60Hex(b))
+		}
+		for i := range in2 {
+			in2[i] ^= 0xa5
 		}
 		if g := c60HdrString(&hh); g != want {
 			return fmt.Errorf("Header.Parse into a value that earlier held a header with %d option bytes != h\n got  %s\n want %s\n wire %s", len(c.PrevOptions), g, want, c60Hex(b))
